@@ -1,5 +1,6 @@
 (* C04 — Structure layout follows C rules; declared size equals bytes read and written. *)
-From VF Require Import Model.Writer Proofs.LayoutCorrect Proofs.CodecCorrect Proofs.SizeProps Proofs.RoundTrip Proofs.AlignedSize Gen.GeneratedOk.
+From VF Require Import Model.Writer Proofs.LayoutCorrect Proofs.CodecCorrect Proofs.SizeProps Proofs.RoundTrip Proofs.AlignedSize Model.Compiler Gen.GeneratedOk.
+From VF Require Proofs.CompilerProps Proofs.CompiledRoundTrip.
 Open Scope list_scope. Open Scope Z_scope.
 
 (* For every field list without bit fields and pre-set offsets whose members are statically sized, the
@@ -62,6 +63,14 @@ Proof. exact read_consumes_aligned. Qed.
 Theorem struct_alignment_is_c_rule : forall c nm fs al, ty_align c (TStruct nm fs al) = snd (c_rule true 0 0 (map (member c) fs)).
 Proof. exact ty_align_struct. Qed.
 
+(* the COMPILED reader consumes the declared size as well (composed with C03's theorem) *)
+Theorem compiled_parse_consumes_declared_size : forall c fuel nm fs p n,
+  Forall (fun f => f_off f = None /\ CompilerProps.cls' c fuel f) fs -> NoDup (map f_name fs) -> CompilerProps.bsize c fs <= 9223372036854775807 -> compile_plan c false fs = Ok p ->
+  flat (TStruct nm fs false) = true -> ty_size c (TStruct nm fs false) = Some n ->
+  forall s pos v q, 0 <= pos -> read_compiled c fuel false fs s pos = Ok (v, q) -> q = pos + n.
+Proof. exact CompiledRoundTrip.compiled_consumes_size. Qed.
+
+Print Assumptions compiled_parse_consumes_declared_size.
 Print Assumptions layout_is_c.
 Print Assumptions aligned_parse_consumes_declared_size.
 Print Assumptions parse_consumes_declared_size.
